@@ -1971,3 +1971,17 @@ TABLE["C12"] += [
     N("default-value-look-ahead-in-front-of-the-copy",
       (IP + "tokens.py", "DEFAULT_ARG = originalTextFor(\n    OneOrMore(", "DEFAULT_ARG = ~EQUAL + originalTextFor(\n    OneOrMore(")),
 ]
+TABLE["C07"] += [
+    B("ctor-name-checked-by-membership", {"V6"},
+      (IP + "classes.py", "        for ctor in self.ctors:\n            if ctor.name != self.name:\n                raise ValueError(\"Error in constructor name! {} != {}\".format(\n                    ctor.name, self.name))",
+       "        ctor_names = {ctor.name for ctor in self.ctors}\n        if ctor_names and self.name not in ctor_names:\n            raise ValueError(\"Error in constructor name! {} != {}\".format(\n                \"/\".join(sorted(ctor_names)), self.name))")),
+    N("ctor-names-checked-as-a-set",
+      (IP + "classes.py", "        for ctor in self.ctors:\n            if ctor.name != self.name:\n                raise ValueError(\"Error in constructor name! {} != {}\".format(\n                    ctor.name, self.name))",
+       "        ctor_names = {ctor.name for ctor in self.ctors}\n        if ctor_names - {self.name}:\n            raise ValueError(\"Error in constructor name! {} != {}\".format(\n                \"/\".join(sorted(ctor_names)), self.name))")),
+    B("ctor-name-checked-for-the-first-only", {"V6"},
+      (IP + "classes.py", "        for ctor in self.ctors:\n            if ctor.name != self.name:\n                raise ValueError(", "        for ctor in self.ctors[:1]:\n            if ctor.name != self.name:\n                raise ValueError(")),
+    B("binary-operator-type-check-skips-minus", {"V6"},
+      (IP + "classes.py", "        if len(args) == 1 and self.operator not in (\"()\", \"[]\"):", "        if len(args) == 1 and self.operator not in (\"()\", \"[]\", \"-\"):")),
+    B("operator-arity-check-off-by-one", {"V6"},
+      (IP + "classes.py", "        assert 0 <= len(args) < 2, \\", "        assert 0 <= len(args) <= 2, \\")),
+]
